@@ -535,10 +535,15 @@ func init() {
 			case 2: // shared tasks across graphs
 				n := 2 + r.intn(6)
 				edges := randomDag(r, n, r.intn(30))
-				plan, retries := randomPlan(r, n, 10)
+				onlyG0 := (idx/4)%3 == 1
+				failPct := 10
+				if onlyG0 {
+					failPct = 30 // retries matter for failing attempts only
+				}
+				plan, retries := randomPlan(r, n, failPct)
 				spec = &Spec{N: n, Hist: canonHist(r, n, edges, retries), Plan: plan, Policy: "eager", HoldUS: 50 + r.intn(150), NGraphs: 2 + r.intn(3), PSeed: r.u64()}
 				spec.ViaLookup = idx%3 == 0
-				spec.RetriesOnlyG0 = idx%4 == 1
+				spec.RetriesOnlyG0 = onlyG0
 				if r.chance(1, 2) {
 					spec.MaxPar = 1 + r.intn(2)
 				}
